@@ -142,6 +142,9 @@ def _one(rng, small=False):
         elif x < 0.2 and d['total'] > 0:
             # a hop that divides total_time exactly (last multiple == total_time is excluded)
             hop = max(HOP_UNIT, (d['total'] // rng.randint(1, 6)) // HOP_UNIT * HOP_UNIT)
+        if hop > 0 and d['total'] // hop > 48:
+            # keep the number of pieces small (np.arange + one deep copy per piece in the code)
+            hop = ((d['total'] // 48) // HOP_UNIT + 1) * HOP_UNIT
         return {'op': 'split_hop', 'input': {'seq': d, 'hop': hop, 'skip': int(rng.random() < 0.5)}}
     if r < 0.78:
         pool = _times_of(d)
